@@ -5,9 +5,10 @@ vec_matrix.rs / matrix.rs (Model/PrimeResidue.lean, Model/LinAlg.lean).
 ✔ proved here: prc_canonical, prc_frombig_canonical, prc_no_overflow, prc_ring_hom,
   prc_val_bijective, prc_inverse, prc_div_is_field_div, prime_PRIME, gcdx_spec,
   clear_col_i64_unimodular, echelon_no_panic (i64), echelon_no_panic_rat,
-  echelon_no_panic_prc, rank_no_panic.
+  echelon_no_panic_prc(_of_int), no_panic_any_shape_{i64,rat,prc}, no_panic_square_{i64,rat,prc}
+  (every routine, every shape), rational_reconstruction_invariant, rational_reconstruction_no_panic.
 ○ not proved (conf/C18.json open_obligations): echelon_invariant, solve_sound,
-  rational_reconstruction_invariant, lifting_invariant; ◐ solve_complete, rank/det/null
+  lifting_invariant; ◐ solve_complete, rank/det/null
   space = Mathlib's, end-to-end exactness of the modular solver — decided per explored input
   by Spec/C18.lean on the implementation's outputs.
 -/
@@ -16,6 +17,7 @@ import DSymVerif.Proofs.PrimeResidue
 import DSymVerif.Proofs.EchelonI64
 import DSymVerif.Proofs.EchelonField
 import DSymVerif.Proofs.Routines
+import DSymVerif.Proofs.RatRec
 
 namespace DSymVerif.C18
 
@@ -232,5 +234,26 @@ theorem no_panic_square_prc (p : ℕ) (hp : p.Prime) (hpm : (p : ℤ) ≤ PRC.ma
     (∃ d, determinant (prcBackend p) (Mat.map (PRC.fromI64 p) a) = .ok d) ∧
     inverse (prcBackend p) (Mat.map (PRC.fromI64 p) a) ≠ .panic :=
   square_np (prc_safe hp hpm) _ (allE_canon_map hp.pos a)
+
+/-! ### modular solver -/
+
+/-- (○, partial correctness) whatever fraction `q` `rational_reconstruction(s, h)` returns
+    is the value `n/d` of a pair with `n ≡ s·d (mod h)` — the loop invariant
+    `u1 ≡ sign·s·v1`, `u ≡ −sign·s·v (mod h)` carried to the exit.  Not proved: that the
+    pair is the unique small one, i.e. the true solution (this needs the step bound, which
+    is floating-point derived). -/
+theorem rational_reconstruction_invariant (s h : Int) (q : Q)
+    (hq : rationalReconstruction s h = .ok q) :
+    ∃ n d : Int, d ≠ 0 ∧ h ∣ n - s * d ∧ q.num * d = n * (q.den : Int) :=
+  rationalReconstruction_inv s h q hq
+
+example : rationalReconstruction 607400099 3037000493 = .ok ⟨2, 5⟩ := by decide
+
+/-- for `0 ≤ s ≤ h` (the solver calls it with `0 ≤ s < h = p^k`) `rational_reconstruction`
+    returns: the loop ends within the model's fuel, no `BigInt` division by zero, no
+    `BigRational::new(_, 0)` -/
+theorem rational_reconstruction_no_panic (s h : Int) (hs : 0 ≤ s) (hsh : s ≤ h) :
+    ∃ q, rationalReconstruction s h = .ok q :=
+  rationalReconstruction_total s h hs hsh
 
 end DSymVerif.C18
